@@ -129,6 +129,7 @@ CHECKS['C06'] = {
     'unproved': ['state of the sub-engine after a joined line (callback effect not modelled)'],
 }
 CHECKS['C11'] = {
+    'grid': {'sets': ['c11'], 'bound': 'every sequence of up to 3 lines and a seventh of those of 4 lines over a 7-line pool (one non-admitted) x 7 aggregate statements (HAVING that a group can stop satisfying, DISTINCT, PERCENTILE) and 7 plain / DISTINCT statements, every prefix length (about 4800 cases)'},
     'verus_units': ['engine', 'aggdispatch', 'aggresult'],
     'clause_prefixes': ['c11'],
     'technique': 'contract-based deductive verification (Verus): ExecutionEngine::execute dispatch, execution_config, ExecutionConfig constructors, AggregateExecutionEngine::execute extracted from /repo; induction lemma over the per-line contracts',
@@ -199,6 +200,7 @@ CHECKS['C12'] = {
     'unproved': ['main.rs collection of input files'],
 }
 CHECKS['C19'] = {
+    'grid': {'sets': ['c19'], 'bound': 'every sequence of up to 3 lines (a quarter of those of 4) over a 5-line pool, also cut into two files, x 5 plain statements x interrupt at every printed record; 14 statements interrupted before the start; unreadable line after the interrupt; joined-file loading after an interrupt with rows / foreign lines in 5 layouts of 60 lines (about 1540 cases)'},
     'verus_units': ['executor', 'joinload'],
     'clause_prefixes': ['c19'],
     'technique': 'contract-based deductive verification (Verus) of FileExecutor::execute with the running flag as a specified stand-in; degenerate schedules only',
@@ -222,6 +224,7 @@ CHECKS['C04'] = {
     'unproved': ['ExpressionTree::visit (its node order is an uninterpreted function of the tree; the two visitor closures are verified as loops over that order: rule E4-visit)', 'Vec<Value>::sort (sorted permutation stand-in)', 'iter_mut loop headers of execute_result'],
 }
 CHECKS['C15'] = {
+    'grid': {'sets': ['c15'], 'bound': 'every multiset of 2..4 lines over a 7-line pool, all its permutations, x 6 statements (COUNT, COUNT(c), COUNT(DISTINCT), SUM, MIN, MAX, AVG, PERCENTILE, BOOL_AND, BOOL_OR; GROUP BY / WHERE / HAVING) and STDDEV / VARIANCE to 9 decimals; every cut of every sequence of 2..3 lines (a fifth of those of 4) into two parts for the key-wise combination (about 3750 cases)'},
     'verus_units': ['aggregate', 'aggdispatch'],
     'kani': {
         'sets': ['value_order'],
@@ -240,6 +243,7 @@ CHECKS['C15'] = {
 }
 
 CHECKS['C05'] = {
+    'grid': {'sets': ['c05'], 'bound': 'a rotating seventeenth of (every sequence of up to 3 left rows over a 6-row pool x every sequence of up to 3 right rows over a 6-row pool): keys duplicated on either side, absent on one side, NULL, integers next to 2^53; TEXT and INT keys, ON written either way round, 10 statement shapes; missing joined file / join column (also with an empty joined file) (about 3950 cases)'},
     'verus_units': ['join', 'joinload', 'mapping', 'converter', 'parser', 'engine', 'extract'],
     'clause_prefixes': ['c05', 'row.'],
     'technique': 'contract-based deductive verification (Verus): JoinedTableData::add_row / get_joined_row / execute, execute_join, extend_option_result_row and create_joined_column_mapping extracted from /repo; the index is a specified stand-in, the per-partner calls are tracked by ghost state and an in-body assertion',
